@@ -957,8 +957,6 @@ theorem relApp_allocated (key : String) (i : CItem) (a : CApp) :
 theorem relApp_allocatedPh (key : String) (i : CItem) (a : CApp) :
     (relApp key i a).allocatedPh = if i.ph = true then prune (subX a.allocatedPh i.res) else a.allocatedPh := by
   unfold relApp; cases i.ph <;> rfl
-theorem relApp_live (key : String) (i : CItem) (a : CApp) (h : i.ph = false) : (relApp key i a).live = a.live := by
-  unfold relApp; rw [h]; rfl
 
 theorem itemSum_rm (l : List CItem) (hk : l.Pairwise (fun i j => i.key ≠ j.key)) (key : String)
     (x : CItem) (hx : x ∈ l) (hkey : x.key = key) (c : CItem → Bool) (k : String) :
@@ -1180,8 +1178,8 @@ theorem books_rel1 (s : Core) (app key : String) (a : CApp) (i : CItem) (hw : Co
     rw [relApp_allocated, relApp_allocatedPh, relApp_pending]
     cases hph : i.ph with
     | false =>
-      rw [relApp_live key i a hph, hl]
-      simp only [Bool.false_eq_true, if_false, if_true, prune_subX_getD _ _ hwa hwr]; omega
+      cases hlv : (relApp key i a).live <;>
+        simp only [Bool.false_eq_true, if_false, if_true, prune_subX_getD _ _ hwa hwr] <;> omega
     | true =>
       cases hlv : (relApp key i a).live <;>
         simp only [Bool.false_eq_true, if_false, if_true, prune_subX_getD _ _ hwh hwr] <;> omega
